@@ -30,6 +30,9 @@ UNIONS = [
     # bounds in a where-clause (and one the field types need for well-formedness)
     ('Gw', ['T', '[u8; 2]'], 2, '<T> where T: Copy', '<u16>'),
     ('Gassoc', ['<T as Assoc>::Out', 'u8'], 2, '<T> where T: Assoc, <T as Assoc>::Out: Copy', '<u8>'),
+    # a parameter named like the hasher parameter the Hash template would pick first
+    ('GH', ['[__H; 2]', 'u16'], 2, '<__H: Copy>', '<u8>'),
+    ('GHc', ['[u8; __H]', 'u16'], 2, '<const __H: usize>', '<2>'),
     # zero-sized unions: the one value still goes through every impl (Hash feeds the empty slice, i.e. its length prefix)
     ('zst', ['()', '[u16; 0]'], 0, '', ''),
     ('zstG', ['[T; 0]', '()'], 0, '<T: Copy>', '<u32>'),
